@@ -145,7 +145,7 @@ func (r *FileReader) SkipNext() error {
 		start := r.reader.Count()
 		payloadSizeUncompressed, payloadSizeCompressed, recordNil, err := readRecordHeaderV4(r.recordHeaderByteReader)
 		if err != nil {
-			return fmt.Errorf("error while reading record header of '%s': %w", r.file.Name(), err)
+			return r.skipHeaderError(err)
 		}
 
 		expectedBytesSkipped := payloadSizeUncompressed
@@ -227,7 +227,7 @@ func SkipNextV2(r *FileReader) error {
 	start := r.reader.Count()
 	payloadSizeUncompressed, payloadSizeCompressed, err := readRecordHeaderV2(r.reader)
 	if err != nil {
-		return fmt.Errorf("error while reading record header of '%s': %w", r.file.Name(), err)
+		return r.skipHeaderError(err)
 	}
 
 	expectedBytesSkipped := payloadSizeUncompressed
@@ -258,7 +258,7 @@ func SkipNextV3(r *FileReader) error {
 	start := r.reader.Count()
 	payloadSizeUncompressed, payloadSizeCompressed, recordNil, err := readRecordHeaderV3(r.reader)
 	if err != nil {
-		return fmt.Errorf("error while reading record header of '%s': %w", r.file.Name(), err)
+		return r.skipHeaderError(err)
 	}
 
 	expectedBytesSkipped := payloadSizeUncompressed
@@ -287,6 +287,26 @@ func SkipNextV3(r *FileReader) error {
 	r.reader.Reset(r.file)
 	r.currentOffset = uint64(newOffset)
 	return nil
+}
+
+// skipHeaderError turns the failure to read the header of the record to skip into what ReadNext would have returned for
+// it: block-aligned (DirectIO) files end in zero padding, a marker mismatch followed by nothing but zeros is their end.
+func (r *FileReader) skipHeaderError(err error) error {
+	if errors.Is(err, MagicNumberMismatchErr) {
+		remainder, readErr := io.ReadAll(r.reader)
+		if readErr != nil {
+			return fmt.Errorf("error while parsing record header seeking for file end of '%s': %w", r.file.Name(), readErr)
+		}
+		for _, b := range remainder {
+			if b != 0 {
+				return fmt.Errorf("error while reading record header of '%s': %w", r.file.Name(), err)
+			}
+		}
+
+		return io.EOF
+	}
+
+	return fmt.Errorf("error while reading record header of '%s': %w", r.file.Name(), err)
 }
 
 // checkSkipTarget fails when the record to skip is not completely contained in the file. Seeking behind the end of a
